@@ -1,11 +1,11 @@
 package absint
 
 import (
-	"strings"
 	"go/token"
 	"go/types"
 	"math"
 	"math/big"
+	"strings"
 
 	"golang.org/x/tools/go/ssa"
 )
@@ -1148,7 +1148,6 @@ type OffSlice struct {
 	Arr *Cell
 	Off *Term
 }
-
 
 // ClosureV is a function literal with its captured variables.
 type ClosureV struct {
